@@ -74,6 +74,43 @@ class Cfg:
             if only is not None:
                 self.pruned.append((i, [s for s in self.succ[i] if s != only]))
                 self.succ[i] = [only]
+        # `Err(e)?` / `None?`: Try::branch of a value built as Err/None in the calling block always breaks
+        for i, b in enumerate(body.blocks):
+            tr = b["t"]
+            if tr[0] != "call" or tr[4] is None:
+                continue
+            c = tr[1][2] if tr[1][0] == "c" and isinstance(tr[1][2], dict) else None
+            if not c or not c.get("fn", "").endswith("ops::try_trait::Try::branch") or len(tr[2]) != 1:
+                continue
+            a = tr[2][0]
+            if a[0] not in ("cp", "mv") or a[1][1]:
+                continue
+            var = None
+            for st in b["s"]:
+                if st[0] == "a" and st[1] == [a[1][0], []]:
+                    rv = st[2]
+                    var = None
+                    if rv[0] == "agg" and rv[1]["k"] == "adt" and rv[1]["d"] in ("core::option::Option", "core::result::Result"):
+                        var = rv[1]["v"]
+            if var is None:
+                continue
+            nb = body.blocks[tr[4]]
+            sw = nb["t"]
+            if sw[0] != "switch" or sw[1][0] not in ("cp", "mv"):
+                continue
+            dl = sw[1][1][0]
+            isd = any(st[0] == "a" and st[1] == [dl, []] and st[2][0] == "discr" and st[2][1] == tr[3] for st in nb["s"])
+            if not isd:
+                continue
+            val = 1 if var in ("Err", "None") else 0   # ControlFlow::Break = 1
+            only = None
+            for v, tg in sw[2]:
+                if v == val:
+                    only = tg
+            if only is None:
+                only = sw[3]
+            self.pruned.append((tr[4], [s for s in self.succ[tr[4]] if s != only]))
+            self.succ[tr[4]] = [only]
         self.pred = [[] for _ in range(n)]
         for i, ss in enumerate(self.succ):
             for s in ss:
@@ -117,6 +154,22 @@ class Cfg:
                 if s not in removed and s not in seen:
                     st.append(s)
         return False
+
+    def reach_plus(self, a):
+        """Blocks reachable from a by one or more edges (cached)."""
+        c = self.__dict__.setdefault("_rp", {})
+        r = c.get(a)
+        if r is None:
+            seen = set()
+            st = list(self.succ[a])
+            while st:
+                x = st.pop()
+                if x in seen:
+                    continue
+                seen.add(x)
+                st.extend(self.succ[x])
+            r = c[a] = seen
+        return r
 
     def path(self, a, b, removed=()):
         """Some path a ->* b avoiding `removed` (list of blocks) or None."""
